@@ -23,7 +23,8 @@ def sh(cmd, **kw):
 def one(sid):
     S = os.path.join(HERE, "seeded", sid)
     meta = json.load(open(os.path.join(S, "meta.json")))
-    checks = meta.get("checks") or [meta["property"]]
+    import re
+    checks = meta.get("checks") or [re.search(r"C\d\d", str(meta["property"])).group(0)]
     W = f"/tmp/seedrun/{sid}"
     sh(f"git -C {REPO} worktree remove --force {W}; rm -rf {W}; git -C {REPO} worktree prune")
     r = sh(f"git -C {REPO} worktree add -q --detach {W} HEAD && cp {REPO}/include/tins/config.h {W}/include/tins/config.h && git -C {W} apply {S}/patch.diff")
